@@ -82,9 +82,10 @@ static Outcome runCase(const KV& c)
             L[0].rhs()[i] = -t[i];
         const int nc = L[1].grid().numberOfNodes();
         Vector<double> uc(nc), tc(nc), zc(nc);
+        RefCycle rc0(*s);
         for (int i = 0; i < nc; i++)
             zc[i] = 0.0;
-        GMGPolarVerifAccess::interpolation(*s).applyInjection(L[0], L[1], uc, u);
+        rc0.inject(0, uc, u); // own injection (coarse node (i,j) = fine node (2i,2j))
         L[1].computeResidual(tc, zc, uc);
         for (int i = 0; i < nc; i++)
             L[1].rhs()[i] = -tc[i];
